@@ -13,7 +13,7 @@ ENV["CARGO_NET_OFFLINE"] = "true"
 ENV.pop("RUSTUP_TOOLCHAIN", None)
 ENV["CARGO_TERM_COLOR"] = "never"
 
-KANI_BASE = ["-Z", "stubbing", "-Z", "unstable-options"]
+KANI_BASE = ["-Z", "stubbing", "-Z", "unstable-options", "-v"]
 
 
 def pkg_features(pkg):
